@@ -24,7 +24,31 @@ FULLY_SWEPT = [
 ]
 
 
+# executed in every run: virtual domains of every documented key form (domain, .suffix, catch-all) with failing recipients in each of them
+VDOM_FORMS = [
+    {"controls": {"me": "me.example\n", "locals": "loc.example\n", "virtualdomains": "virt.example:vuser\n.wild.example:vwild\n:catchall\n"}, "limits": [120, 120],
+     "messages": [{"sender": "s@loc.example", "rcpts": ["nobody@virt.example", "x@sub.wild.example", "nobody@elsewhere.example", "joe@loc.example", "ann@far.example.org"], "body": "x\n"}],
+     "scripts": {"0:0": "D", "0:1": "D", "0:2": "D", "0:3": "D", "0:4": "ZD"}, "bscript": "K", "texts": ["no such user", "mailbox full\n"], "tape": [],
+     "actions": ["answer", "inject", "advance"], "mode": {"kind": "none"}},
+    {"controls": {"me": "me.example\n", "locals": "loc.example\n", "virtualdomains": ":catchall\nexempt.example:\n"}, "limits": [120, 120],
+     "messages": [{"sender": "s@loc.example", "rcpts": ["nobody@elsewhere.example", "u@exempt.example"], "body": "x\n"}],
+     "scripts": {"0:0": "D", "0:1": "D"}, "bscript": "K", "texts": ["no such user"], "tape": [], "actions": ["answer", "inject", "advance"], "mode": {"kind": "none"}},
+]
+
+
+def interrupted_waits():
+    """the daemon's blocking wait for its own queueing child (the bounce injection) is interrupted by a signal once - waitpid() returns
+    -1/EINTR, nothing was reaped. That is no failure: the notice still goes out exactly once (all clauses in force; added after seeded
+    change C14-F)"""
+    out = []
+    for base in (FULLY_SWEPT[0], VDOM_FORMS[0]):
+        for k in range(5):
+            out.append(dict(base, mode={"kind": "eintr", "key": "send.qmail-send", "cls": "waitpid", "k": k, "err": "4"}))
+    return out
+
+
 def run(ctx):
+    q.search(ctx, "C14", TAGS, 0, 0, fixed=VDOM_FORMS + interrupted_waits())
     q.search(ctx, "C14", TAGS, 0, 0, sweep={"all": True, "faults_only": True}, fixed=FULLY_SWEPT)
     # every crash point (image kept) of the daemon and its helpers for the same history, then restart: the failures recorded before the crash
     # must still be answered by a notice (only that clause is judged: a crash legitimately repeats an attempt and hence a paragraph)
